@@ -33,17 +33,18 @@ type AdmitItem struct {
 }
 
 type AdmitResult struct {
-	States   int            `json:"states"`
-	Attempts int            `json:"attempts"`
-	Accepted int            `json:"accepted"`
-	Rejected int            `json:"rejected"`
-	Panics   int            `json:"panics"`
-	Twins    int            `json:"twins"`
-	Verdicts map[string]int `json:"verdicts"` // operator → accepted count
-	Viol     []ev.Violation `json:"viol,omitempty"`
-	Samples  []string       `json:"samples,omitempty"`
-	PanicOps map[string]int `json:"panic_ops"`
-	Distinct int            `json:"distinct"`
+	States    int            `json:"states"`
+	Attempts  int            `json:"attempts"`
+	Accepted  int            `json:"accepted"`
+	Rejected  int            `json:"rejected"`
+	Panics    int            `json:"panics"`
+	Twins     int            `json:"twins"`
+	Premature int            `json:"premature"`
+	Verdicts  map[string]int `json:"verdicts"` // operator → accepted count
+	Viol      []ev.Violation `json:"viol,omitempty"`
+	Samples   []string       `json:"samples,omitempty"`
+	PanicOps  map[string]int `json:"panic_ops"`
+	Distinct  int            `json:"distinct"`
 }
 
 // operator on an event body; returns false if not applicable
@@ -605,6 +606,25 @@ func init() {
 					}
 				}
 			}
+			// premature events: a genuine later event of the base whose parents are not all known yet is offered now
+			// (rejected: a parent is missing); when the continuation below reaches it - its parents are known by then -
+			// the same body is offered first with a signature that is not its creator's (another validator's key; the
+			// creator's signature of another event), which must be rejected whatever the earlier attempt left behind
+			premature := map[int]bool{}
+			if it.Reset == 0 {
+				for i := L; i < len(evs) && len(premature) < 4; i++ {
+					e := evs[i]
+					if cx.byHash[e.Hex] != nil {
+						continue
+					}
+					if (e.Self == "" || cx.byHash[e.Self] != nil) && (e.Other == "" || cx.byHash[e.Other] != nil) {
+						continue
+					}
+					premature[i] = true
+					res.Premature++
+					attempt(e.Fresh(), "premature: a genuine later event offered before its parents are known", e)
+				}
+			}
 			// twin: the instance that saw all (rejected) attempts and a fresh one continue identically
 			var twin *dag.Inst
 			okc := true
@@ -632,8 +652,29 @@ func init() {
 				if !okc {
 					break
 				}
-				e1, _ := inst.Insert(evs[i].Fresh())
+				if premature[i] {
+					e := evs[i]
+					nacc := res.Accepted
+					t1 := &hg.Event{Body: copyBodyEv(e.Body)}
+					t1.Sign(sim.Key((e.CreatorIdx + 1) % n))
+					attempt(t1, "premature-then-forged: the same body, now insertable, signed with another validator's key", e)
+					if sp := cx.byHash[e.Self]; sp != nil && res.Accepted == nacc {
+						t2 := &hg.Event{Body: copyBodyEv(e.Body), Signature: sp.Signature}
+						attempt(t2, "premature-then-forged: the same body, now insertable, with the creator's signature of its previous event", e)
+					}
+					if res.Accepted != nacc {
+						okc = false // reported above; the instance was rebuilt
+						break
+					}
+				}
+				f1 := evs[i].Fresh()
+				e1, _ := inst.Insert(f1)
 				e2, _ := twin.Insert(evs[i].Fresh())
+				if e1 == nil {
+					cx.byHash[evs[i].Hex] = f1
+					cx.lastOf[f1.Creator()] = evs[i].Hex
+					cx.order = append(cx.order, evs[i].Hex)
+				}
 				if (e1 == nil) != (e2 == nil) {
 					addViol("twin-diverges", fmt.Sprintf("%s prefix %d: after the rejected attempts the valid continuation event %d is accepted=%v, on a twin that never saw them accepted=%v", it.Base, L, i, e1 == nil, e2 == nil), map[string]interface{}{"base": it.Base, "prefix": L})
 					okc = false
@@ -701,6 +742,7 @@ func init() {
 			tot.Rejected += res.Rejected
 			tot.Panics += res.Panics
 			tot.Twins += res.Twins
+			tot.Premature += res.Premature
 			for k, v := range res.Verdicts {
 				tot.Verdicts[k] += v
 			}
@@ -735,6 +777,7 @@ func init() {
 		cov["rejected_by_panic_handed_to_C08"] = tot.Panics
 		cov["panic_operators"] = tot.PanicOps
 		cov["twin_continuations_compared"] = tot.Twins
+		cov["premature_then_forged_sequences"] = tot.Premature
 		cov["accepted_by_operator"] = tot.Verdicts
 		cov["exhaustive"] = handed == len(items)
 		cov["samples"] = samples
